@@ -3,8 +3,10 @@
 #ifndef TETL_TYPE_TRAITS_COMMON_TYPE_HPP
 #define TETL_TYPE_TRAITS_COMMON_TYPE_HPP
 
+#include <etl/_type_traits/conditional.hpp>
 #include <etl/_type_traits/decay.hpp>
 #include <etl/_type_traits/declval.hpp>
+#include <etl/_type_traits/is_same.hpp>
 #include <etl/_type_traits/void_t.hpp>
 
 namespace etl {
@@ -49,8 +51,14 @@ struct common_type_multi_impl<void_t<typename common_type<T1, T2>::type>, T1, T2
     : common_type<typename common_type<T1, T2>::type, R...> { };
 } // namespace detail
 
+/// If T1 or T2 is not already decayed the result is common_type<decay_t<T1>, decay_t<T2>>, so that
+/// program-defined specializations for the decayed types are found ([meta.trans.other]/3.3.1).
 template <typename T1, typename T2>
-struct common_type<T1, T2> : detail::common_type_2_impl<decay_t<T1>, decay_t<T2>> { };
+struct common_type<T1, T2>
+    : conditional_t<
+          is_same_v<T1, decay_t<T1>> and is_same_v<T2, decay_t<T2>>,
+          detail::common_type_2_impl<T1, T2>,
+          common_type<decay_t<T1>, decay_t<T2>>> { };
 
 template <typename T1, typename T2, typename... R>
 struct common_type<T1, T2, R...> : detail::common_type_multi_impl<void, T1, T2, R...> { };
